@@ -13,8 +13,11 @@
 (*                  the returned string and the files it references),      *)
 (*             sig / fresh (digest of command string + file contents on    *)
 (*             this instance / on a fresh instance of the configuration).  *)
-(* Find event: cans (can_launch of each configured method, in order),      *)
-(*             sel (index of the method find_launcher returned, 0: none).  *)
+(* Find event: cfgs / cans (configuration and can_launch of each method of *)
+(*             the order the resource manager kept), sel (index of the     *)
+(*             method find_launcher returned, 0: none), the task.          *)
+(* T.local:    the names of the executor's own node (its host name and     *)
+(*             localhost) - whole-string identity.                         *)
 (*                                                                         *)
 (* The monitor is total; failing clauses are collected in errs as          *)
 (* "<clause>@<event number>".                                              *)
@@ -50,7 +53,7 @@ GenErrs(e) ==
   LET c == T.cfg
       P == ToP(e.task.p)
   IN
-     E(CannotStart(c, Len(P), e.task.mpi) => (~e.can \/ e.out = "raise"), At("C09.RefuseNotShrink"))
+     E(CannotStart(c, P, e.task.mpi, Local) => (~e.can \/ e.out = "raise"), At("C09.RefuseNotShrink"))
   \cup E(e.out = "cmd" => e.can, At("X.ProtocolBroken"))
   \* same outcome as on a fresh instance, and as earlier on this instance
   \cup E(e.sig = e.fresh, At("C09.HistoryFree"))
@@ -72,7 +75,13 @@ Step ==
                /\ seen' = seen \cup {<<e.task.id, e.sig>>}
                /\ ids' = ids \cup {e.task.id}
           [] e.ev = "Find" ->
-               /\ errs' = errs \cup E(OrderOK(e.cans, e.sel) /\ e.kept, At("C09.OrderRespected"))
+               /\ LET P == ToP(e.task.p) IN
+                  errs' = errs
+                    \cup E(OrderOK(e.cans, e.sel) /\ e.kept, At("C09.OrderRespected"))
+                    \cup E(SelAble(e.cfgs, e.sel, P, e.task.mpi, Local), At("C09.OrderRespected"))
+                    \cup E(\A i \in DOMAIN e.cfgs :
+                             CannotStart(e.cfgs[i], P, e.task.mpi, Local) => ~e.cans[i],
+                          At("C09.RefuseNotShrink"))
                /\ UNCHANGED <<ids, seen>>
           [] OTHER ->
                /\ errs' = errs \cup {At("X.UnknownEvent")}
